@@ -274,8 +274,10 @@ int16_t CONmtHbConsCheck(CO_NMT *nmt, CO_IF_FRM *frm)
     if (hbc == 0) {
         return (result);
     }
-    if ((cobid >= COT_HB_COBID) &&
-        (cobid <= COT_HB_COBID + 127)) {
+    if ((cobid >= COT_HB_COBID + 1) &&
+        (cobid <= COT_HB_COBID + 127) &&
+        (frm->DLC >= 1)) {
+        /* heartbeat of node 1..127: one byte with the NMT state */
         nodeid = (uint8_t)(cobid - COT_HB_COBID);
     } else {
         return (result);
